@@ -230,7 +230,9 @@ impl FailSafe {
 
         kv.access(|mut kv, buf| {
             if let Some(fab_idx) = NonZeroU8::new(fab_idx_raw) {
-                fabrics.remove(fab_idx)?;
+                // The fabric might be gone already (removed with `RemoveFabric` while the
+                // fail-safe was armed for it); that must not keep the fail-safe armed forever
+                let _ = fabrics.remove(fab_idx);
                 fabrics.add_load(fab_idx.get(), &mut kv, buf)?;
 
                 removed_fabric = fabrics.get(fab_idx).is_none().then_some(fab_idx);
